@@ -688,4 +688,3 @@ func ruleC23(c *Ctx) {
 	c.Floor("facts", 2)
 	c.Floor("loopshape", 1)
 }
-
